@@ -55,9 +55,9 @@ func derive(id uint64, salt byte, n int) []byte {
 type rpcCall struct {
 	id        uint64
 	behaviour int
-	k         int  // stream length
-	size      int  // payload size
-	fail      bool // streaming calls: the handler ends with an application-defined status after streaming
+	k         int    // stream length
+	size      int    // payload size
+	fail      bool   // streaming calls: the handler ends with an application-defined status after streaming
 	sub       int    // number of subservice calls in front of the method call (request with several calls)
 	pad       []byte // extra request bytes (field 7), not covered by the crc: large requests for back-pressure scenarios
 }
@@ -202,15 +202,15 @@ func buildRequest(c rpcCall) (prpc.Request, *rpc.Request, status.Status) {
 
 // rpcServerSide is the deterministic handler plus its invocation log.
 type rpcServerSide struct {
-	invoked sync.Map // id -> *atomic.Int32
-	bad     atomic.Int64
-	badDesc atomic.Pointer[string]
-	enter   atomic.Int64
-	exit    atomic.Int64
-	blockCh chan struct{} // optional: handlers of behaviour bLate wait on it (fault checks)
-	resultsMade, resultsFreed atomic.Int64 // results handed to the library / released by it
-	subcalls atomic.Int64 // subservice calls seen in front of method calls
-	rereads atomic.Int64  // handlers that asked for the request a second time after streamed messages
+	invoked                   sync.Map // id -> *atomic.Int32
+	bad                       atomic.Int64
+	badDesc                   atomic.Pointer[string]
+	enter                     atomic.Int64
+	exit                      atomic.Int64
+	blockCh                   chan struct{} // optional: handlers of behaviour bLate wait on it (fault checks)
+	resultsMade, resultsFreed atomic.Int64  // results handed to the library / released by it
+	subcalls                  atomic.Int64  // subservice calls seen in front of method calls
+	rereads                   atomic.Int64  // handlers that asked for the request a second time after streamed messages
 }
 
 func (s *rpcServerSide) count(id uint64) int32 {
